@@ -441,12 +441,29 @@ class MetaDataReplace(MosFile):
         """
         return self.base_tag.find('roSlug').text
 
+    @staticmethod
+    def _find_external_metadata(ro: RunningOrder, source: Element) -> Tuple[Optional[Element], Optional[int]]:
+        """
+        Find the ``mosExternalMetadata`` block in *ro* with the same
+        ``mosSchema`` as *source* and return ``(block, index)`` or
+        ``(None, None)`` if there is none
+        """
+        schema = source.findtext('mosSchema')
+        for i, child in enumerate(ro.base_tag):
+            if child.tag == 'mosExternalMetadata' and child.findtext('mosSchema') == schema:
+                return (child, i)
+        return (None, None)
+
     def merge(self, ro: RunningOrder) -> RunningOrder:
         """
         Merge into the :class:`RunningOrder` object provided.
         """
         for source in self.base_tag:
-            target, target_index = find_child(parent=ro.base_tag, child_tag=source.tag)
+            if source.tag == 'mosExternalMetadata':
+                # only a block with the same mosSchema is replaced
+                target, target_index = self._find_external_metadata(ro, source)
+            else:
+                target, target_index = find_child(parent=ro.base_tag, child_tag=source.tag)
             if target is None:
                 insert_node(parent=ro.base_tag, node=source, index=len(ro.base_tag))
             else:
